@@ -130,7 +130,7 @@ class Ctx:
 class watchdog:
     """Abandon a single case after `secs`; a timeout is never a violation."""
 
-    def __init__(self, secs=20):
+    def __init__(self, secs=6):
         self.secs = secs
 
     def _fire(self, *_):
